@@ -301,6 +301,8 @@ class Ctx:
                 tree = ast.parse(f.read(), filename=path)
             for n in tree.body:
                 if isinstance(n, ast.FunctionDef) and not n.name.startswith("_"):
+                    if any(isinstance(d, ast.Name) and d.id == "abstract" for d in n.decorator_list):
+                        continue  # uninterpreted in tier P (declared with api.abstract), executable natively
                     self.specdefs[n.name] = n
         for name, fd in self.specdefs.items():
             pk = [_ann_kind(a.annotation) for a in fd.args.args]
